@@ -31,6 +31,17 @@
 (*                 narrowing of it: "u16", "u8" (position truncated),      *)
 (*                 "rel" (offset relative to the sub-table)                *)
 (*   IdxKeyMode  : the key of a parsed lookup - "abs" its index, "u8"      *)
+(*   ImgKeepMode : when set_embedded_image_filter keeps the image tables   *)
+(*                 selected under the previous filter - "none" (any change *)
+(*                 of the filter forgets them), or "superset" / "subset"   *)
+(*                 (kept when the new filter contains / is contained in    *)
+(*                 the old one), "always"                                  *)
+(*   LookupsCap  : 0 = cached_lookups is an unbounded map (code, design);  *)
+(*                 n > 0 = at most n lists are kept, a miss on a full      *)
+(*                 cache is served through one scratch slot that the next  *)
+(*                 miss overwrites (a handle to it dangles)                *)
+(* The caches are UNBOUNDED MAPS: any bound, eviction or slot reuse in the *)
+(* implementation is a behaviour this model does not have.                 *)
 (***************************************************************************)
 EXTENDS Integers, Sequences, FiniteSets, TLC
 
@@ -39,7 +50,9 @@ CONSTANTS CodeKeys,      \* BOOLEAN
           HasImages,     \* the font has an embedded-image table
           StoreFailed,   \* BOOLEAN, FALSE in the code and in the design
           PosKeyMode,    \* "abs" in the code and in the design
-          IdxKeyMode     \* "abs" in the code and in the design
+          IdxKeyMode,    \* "abs" in the code and in the design
+          ImgKeepMode,   \* "none" in the code and in the design
+          LookupsCap     \* 0 in the code and in the design
 
 \* ---- the font ------------------------------------------------------------
 \* A font descriptor is the part of the font's content the cache model has to know:
@@ -55,13 +68,17 @@ CONSTANTS CodeKeys,      \* BOOLEAN
 \*               (typ, ext, sub tell the harness how to lay the bytes out, l2 whether the feature also belongs
 \*                to the font's second language system; the model ignores them - a call names the features
 \*                that are in force, `feats`)
+\*   imgs    : the embedded-image tables the font carries (all of them hold an image of the glyphs asked for),
+\*             a bit set: 1 = SVG, 2 = CBDT/CBLC, 4 = sbix, 8 = EBDT/EBLC - the order of precedence of
+\*             Font::embedded_images; an image filter is a bit set of the same kinds
+\*   sub     : sub-family (which generator of histories runs on it; the model ignores it)
 Range(s) == {s[i] : i \in DOMAIN s}
 IsDamaged(font, k) == k \in Range(font.damaged)
 
 \* ---- slots --------------------------------------------------------------
 \*  glyph   : function key -> term        (font.rs GlyphCache: only U+25CC is cached)
-\*  images  : function key -> filter value the image tables were selected under (LazyLoad embedded_images:
-\*            one slot in the code; keyed by the filter in the intended design)
+\*  images  : function key -> the image table that was selected (LazyLoad embedded_images: one slot in the code;
+\*            keyed by the filter in the intended design); 0 = none, ImgAbsent = Loaded(None) after a failed load
 \*  lookups : function key -> term        (lookups_index + cached_lookups)
 \*  supported : function <<script, lang>> -> term   (supported_features: the feature mask of a language system)
 \*  lazy    : function table kind -> "ok" (LazyLoad::Loaded) | "failed" (a load was attempted and failed: the
@@ -70,9 +87,13 @@ IsDamaged(font, k) == k \in Range(font.damaged)
 \*  parsed  : function <<tbl, key of lookup index>> -> term of the parsed lookup (LayoutCacheData.lookup_cache)
 \*  objs    : function <<tbl, kind, key of position>> -> term of the parsed object (coverages / classdefs)
 \*  filter  : current embedded image filter (configuration, set by set_embedded_image_filter)
+\*  scratch : the list last served through the scratch slot of a bounded cached_lookups (LookupsCap > 0 only)
+SVG == 1  CBDT == 2  SBIX == 4  EBDT == 8
+DefaultFilter == 7        \* Font::new: SVG | SBIX | CBDT
 InitStateOf(font) == [font |-> font, glyph |-> <<>>, images |-> <<>>, lookups |-> <<>>, supported |-> <<>>, lazy |-> <<>>,
-                      parsed |-> <<>>, objs |-> <<>>, filter |-> "default"]
-PlainFont == [fam |-> "intact", damaged |-> <<>>, lookups |-> <<>>]
+                      parsed |-> <<>>, objs |-> <<>>, filter |-> DefaultFilter, scratch |-> <<>>]
+\* the most pessimistic intact font: it has every image table, so every filter may select another one
+PlainFont == [fam |-> "intact", damaged |-> <<>>, lookups |-> <<>>, imgs |-> 15, sub |-> ""]
 InitState == InitStateOf(PlainFont)
 
 Put(f, k, v) == [x \in (DOMAIN f) \cup {k} |-> IF x = k THEN v ELSE f[x]]
@@ -91,28 +112,45 @@ ReadLazy(st, k) ==
 
 \* ---- what values depend on -----------------------------------------------
 Resolve(ch, vs) == IF vs # "none" THEN vs ELSE IF ch = "EM" THEN "VS16" ELSE "VS15"
-\* which image tables a filter lets through (only matters when the font has any)
-ImagesUnder(f) == IF HasImages THEN f ELSE "n/a"
-\* what selecting the image tables gives now; the default filter is the one that selects the (damaged) table
-ImagesNow(st) == IF HasImages /\ IsDamaged(st.font, "images") /\ st.filter = "default" THEN "err" ELSE ImagesUnder(st.filter)
-ImagesStored(v) == IF v = "absent" THEN "none" ELSE ImagesUnder(v)
+\* Font::embedded_images: the first of SVG, CBDT, sbix, EBDT that the font has and the filter lets through
+Bit(x, k) == (x \div k) % 2 = 1
+FontImgs(font) == IF HasImages THEN font.imgs ELSE 0
+Sel(imgs, f) == IF Bit(imgs, SVG) /\ Bit(f, SVG) THEN SVG
+                ELSE IF Bit(imgs, CBDT) /\ Bit(f, CBDT) THEN CBDT
+                ELSE IF Bit(imgs, SBIX) /\ Bit(f, SBIX) THEN SBIX
+                ELSE IF Bit(imgs, EBDT) /\ Bit(f, EBDT) THEN EBDT ELSE 0
+ImgErr == -2      \* the selected table fails to load
+ImgAbsent == -1   \* slot content Loaded(None) stored after a failed load (defect StoreFailed only)
+\* what selecting the image tables gives now: the selection depends on the font AND on the filter in force
+ImagesNow(st) == LET s == Sel(FontImgs(st.font), st.filter) IN
+                 IF s # 0 /\ IsDamaged(st.font, "images") THEN ImgErr ELSE s
+ImagesStored(v) == IF v = ImgAbsent THEN 0 ELSE v
 \* region of the design space as far as GSUB FeatureVariations distinguish it
 FV(t) == IF HasFV THEN t ELSE "n/a"
 
 \* has_embedded_images()/lookup_glyph_image(): the image tables are selected on first use
 \* returns [st, val, stale]
-ImagesKey(st) == IF CodeKeys THEN "slot" ELSE ImagesUnder(st.filter)
+ImagesKey(st) == IF CodeKeys THEN "slot" ELSE st.filter
 ReadImages(st) ==
   LET k == ImagesKey(st) IN
   IF k \in DOMAIN st.images
   THEN [st |-> st, val |-> ImagesStored(st.images[k]),
         stale |-> IF ImagesStored(st.images[k]) = ImagesNow(st) THEN {}
-                  ELSE IF st.images[k] = "absent" THEN {"lazy.failedLoad"} ELSE {"images.filter"}]
-  ELSE IF ImagesNow(st) = "err"
-       THEN [st |-> IF StoreFailed THEN [st EXCEPT !.images = Put(@, k, "absent")]
+                  ELSE IF st.images[k] = ImgAbsent THEN {"lazy.failedLoad"} ELSE {"images.filter"}]
+  ELSE IF ImagesNow(st) = ImgErr
+       THEN [st |-> IF StoreFailed THEN [st EXCEPT !.images = Put(@, k, ImgAbsent)]
                     ELSE [st EXCEPT !.lazy = Put(@, "images", "failed")],
-             val |-> "err", stale |-> {}]
-       ELSE [st |-> [st EXCEPT !.images = Put(@, k, st.filter)], val |-> ImagesUnder(st.filter), stale |-> {}]
+             val |-> ImgErr, stale |-> {}]
+       ELSE [st |-> [st EXCEPT !.images = Put(@, k, ImagesNow(st))], val |-> ImagesNow(st), stale |-> {}]
+
+\* set_embedded_image_filter: which changes of the filter forget the selected image tables
+FilterWithin(a, b) == \A k \in {SVG, CBDT, SBIX, EBDT} : Bit(a, k) => Bit(b, k)
+ForgetsImages(old, new) ==
+  /\ new # old
+  /\ CASE ImgKeepMode = "none"     -> TRUE
+        [] ImgKeepMode = "superset" -> ~FilterWithin(old, new)
+        [] ImgKeepMode = "subset"   -> ~FilterWithin(new, old)
+        [] ImgKeepMode = "always"   -> FALSE
 
 \* map_unicode_to_glyph returns (glyph, selector used).  The glyph depends on the presentation
 \* only when it is Required (then on the image tables for VS16); the selector used is always
@@ -130,7 +168,7 @@ Cacheable(ch, pres, vs) ==
   IF CodeKeys THEN ch = "DC" /\ pres = "NotReq" /\ vs = "none" ELSE ch = "DC"
 GlyphKey(ch, pres, vs, st) ==
   IF CodeKeys THEN ch
-  ELSE <<ch, pres, Resolve(ch, vs), IF pres = "Req" /\ Resolve(ch, vs) = "VS16" THEN ImagesUnder(st.filter) ELSE "-">>
+  ELSE <<ch, pres, Resolve(ch, vs), IF pres = "Req" /\ Resolve(ch, vs) = "VS16" THEN ImagesNow(st) ELSE 0>>
 
 \* the state of a freshly loaded font carrying the same configuration
 FreshOf(st) == [InitStateOf(st.font) EXCEPT !.filter = st.filter]
@@ -157,13 +195,33 @@ MapText(st, text, pres) ==
 LookupsTerm(s, l, m, t) == <<"lookups", s, l, m, FV(t)>>
 LookupsKey(s, l, m, t)  == IF CodeKeys THEN <<s, l, m>> ELSE <<s, l, m, FV(t)>>
 
-\* get_lookups_cache_index + cached_lookups
-ReadLookups(st, s, l, m, t) ==
+\* get_lookups_cache_index hands out an INDEX into cached_lookups; the list is read afterwards.  The model's
+\* handle is the key itself (an unbounded map never moves an entry); with LookupsCap > 0 a miss on a full cache
+\* gets the scratch slot.  returns [st, h]
+FetchLookups(st, s, l, m, t) ==
   LET k == LookupsKey(s, l, m, t) IN
-  IF k \in DOMAIN st.lookups
-  THEN [st |-> st, val |-> st.lookups[k],
-        stale |-> IF st.lookups[k] # LookupsTerm(s, l, m, t) THEN {"lookupsIndex.tuple"} ELSE {}]
-  ELSE [st |-> [st EXCEPT !.lookups = Put(@, k, LookupsTerm(s, l, m, t))], val |-> LookupsTerm(s, l, m, t), stale |-> {}]
+  IF k \in DOMAIN st.lookups THEN [st |-> st, h |-> <<"key", k>>]
+  ELSE IF LookupsCap = 0 \/ Cardinality(DOMAIN st.lookups) < LookupsCap
+       THEN [st |-> [st EXCEPT !.lookups = Put(@, k, LookupsTerm(s, l, m, t))], h |-> <<"key", k>>]
+       ELSE [st |-> [st EXCEPT !.scratch = LookupsTerm(s, l, m, t)], h |-> <<"scratch">>]
+\* cached_lookups.borrow()[index]; returns [val, stale]
+DerefLookups(st, h, s, l, m, t) ==
+  LET v == IF h[1] = "key" THEN st.lookups[h[2]] ELSE st.scratch IN
+  [val |-> v, stale |-> IF v = LookupsTerm(s, l, m, t) THEN {}
+                        ELSE IF h[1] = "key" THEN {"lookupsIndex.tuple"} ELSE {"lookups.capacity"}]
+\* fetch and read at once (every caller but the fraction path)
+ReadLookups(st, s, l, m, t) ==
+  LET f == FetchLookups(st, s, l, m, t)
+      d == DerefLookups(f.st, f.h, s, l, m, t) IN
+  [st |-> f.st, val |-> d.val, stale |-> d.stale]
+\* gsub_apply_default with FRAC in the (supported) mask: the index for the mask with FRAC and the index for the
+\* mask without it (m0) are both fetched before either list is read
+ReadLookupsFrac(st, s, l, m, m0, t) ==
+  LET f1 == FetchLookups(st, s, l, m, t)
+      f2 == FetchLookups(f1.st, s, l, m0, t)
+      d2 == DerefLookups(f2.st, f2.h, s, l, m0, t)
+      d1 == DerefLookups(f2.st, f1.h, s, l, m, t) IN
+  [st |-> f2.st, val |-> <<d1.val, d2.val>>, stale |-> d1.stale \cup d2.stale]
 
 \* get_supported_features: the mask of a shaping call is intersected with the features of the language system
 SupportedTerm(s, l) == <<"supported", s, l>>
@@ -229,7 +287,8 @@ Nothing(st) == [st |-> st, val |-> <<>>, stale |-> {}]
 \* Font::shape: loads the five layout tables (gsub, gpos, gdef, morx, kern - the first error is reported
 \* and shaping goes on without that table), looks the dotted circle up (NotRequired, no selector),
 \* fetches the lookups for (script, lang, mask) under the tuple (Features::Mask only - custom feature
-\* lists are not cached), parses and applies them
+\* lists are not cached; `frac`: the mask, intersected with the features of the language system, has FRAC, and
+\* `mask0` is that mask without FRAC - otherwise mask0 = mask), parses and applies them
 Shape(st, c) ==
   LET g1  == ReadLazy(st, "gsub")
       g2  == ReadLazy(g1.st, "gpos")
@@ -241,6 +300,7 @@ Shape(st, c) ==
              ELSE ReadSupported(dc.st, c.script, c.lang)
       lk  == IF g1.val # "ok" THEN [st |-> sp.st, val |-> "no gsub", stale |-> {}]
              ELSE IF c.custom THEN [st |-> sp.st, val |-> LookupsTerm(c.script, c.lang, c.mask, c.tuple), stale |-> {}]
+             ELSE IF c.frac THEN ReadLookupsFrac(sp.st, c.script, c.lang, c.mask, c.mask0, c.tuple)
              ELSE ReadLookups(sp.st, c.script, c.lang, c.mask, c.tuple)
       sub == IF g1.val = "ok" THEN UseFeatures(lk.st, "GSUB", c.feats) ELSE Nothing(lk.st)
       pos == IF g2.val = "ok" THEN UseFeatures(sub.st, "GPOS", c.feats) ELSE Nothing(sub.st) IN
@@ -267,13 +327,17 @@ Step(st, c) ==
     [] c.op = "HasImages"   -> LET r == ReadImages(st) IN [st |-> r.st, ret |-> <<"has", r.val>>, stale |-> r.stale]
     \* set_embedded_image_filter forgets the image tables selected under another filter
     [] c.op = "SetFilter"   -> [st |-> [st EXCEPT !.filter = c.f,
-                                                 !.images = IF CodeKeys /\ c.f # st.filter THEN <<>> ELSE @],
+                                                 !.images = IF CodeKeys /\ ForgetsImages(st.filter, c.f) THEN <<>> ELSE @],
                                 ret |-> "unit", stale |-> {}]
     [] c.op = "HAdvance"    -> [st |-> st, ret |-> <<"hadv", c.g>>, stale |-> {}]
     [] c.op = "VAdvance"    -> VAdvance(st, c)
     [] c.op = "GlyphNames"  -> [st |-> st, ret |-> <<"names", c.g>>, stale |-> {}]
     \* gsub_cache() gpos_cache() gdef_table() morx_table() kern_table() vhea_table()
     [] c.op = "Table"       -> LET r == ReadLazy(st, c.k) IN [st |-> r.st, ret |-> <<"table", c.k, r.val>>, stale |-> r.stale]
+    \* ReadScope::read_cache on a scope derived from the table's scope by `route` (offset, offset_length,
+    \* ReadCtxt::read_scope, nested windows): the key is the absolute position, whatever the route
+    [] c.op = "ReadCached"  -> LET r == ReadObjs(st, "RAW", <<c.obj>>) IN
+                               [st |-> r.st, ret |-> <<"obj", c.route, r.val>>, stale |-> r.stale]
 
 \* the same call on a freshly loaded font carrying the same configuration
 Fresh(st, c) == Step(FreshOf(st), c).ret
@@ -284,6 +348,6 @@ PureStep(st, c) == Step(st, c).ret = Fresh(st, c)
 StaleIffImpure(st, c) == (Step(st, c).stale # {}) <=> ~PureStep(st, c)
 
 AllCauses == <<"glyph.dottedCircle", "images.filter", "lookupsIndex.tuple", "lazy.failedLoad",
-               "readCache.position", "lookupCache.index", "supported.lang">>
+               "readCache.position", "lookupCache.index", "supported.lang", "lookups.capacity">>
 CausesSeq(S) == SelectSeq(AllCauses, LAMBDA x : x \in S)
 =============================================================================
